@@ -28,15 +28,15 @@ _MERGED = {}
 
 
 def merge_options(ex, left, right):
-    """MODEL (trusted, cross-checked against the real class by audit C09_options_merge_model) of
-    `left & right` for a right operand built as Options(**kw) with literal keywords:
+    """MODEL (trusted: Options.__and__ re-constructs through Options.__init__, whose locals() walk is outside the
+    subset) of `left & right` for a right operand built as Options(**kw) with literal keywords:
     the left operand with the explicitly given options of the right one overriding; a fresh Options."""
     key = (id(left), id(right), id(ex), ex.paths)
     r = _MERGED.get(key)
     if r is not None and r[0] is left and r[1] is right:
         return r[2]
     ex.world.ext.use(ex, "Options.__and__ / Options(**kw) for the union stages: merge = left operand with the right operand's "
-                         "explicitly given options overriding (model; audit C09_options_merge_model)")
+                         "explicitly given options overriding (trusted model of __and__ / __init__)")
     m = left.model
     rec = VRec(m, dict(left.fields), ref=ex.fresh("merged_options", V))
     ex.assume(rec.ref != sym.NONE)
@@ -66,6 +66,15 @@ def _install(world):
                 raise Unsupported("Options(%s=...)" % k)
             rec.fields[k] = v
         rec.provided = tuple(kwargs)
+        ndl = kwargs.get("no_data_loss")
+        if isinstance(ndl, VBool) and z3.is_true(z3.simplify(ndl.t)) and (
+                "addition" not in kwargs or isinstance(kwargs["addition"], VNone)):
+            # the rule proved for the first statement of Options.__init__ (contracts/context.py, OPTIONS_INIT):
+            # no_data_loss turns an unspecified `addition` into False, and that local is then stored like a given one
+            rec.fields["addition"] = VBool(False)
+            rec.provided = rec.provided + (("addition",) if "addition" not in kwargs else ())
+        elif ndl is not None and not isinstance(ndl, VBool):
+            raise Unsupported("Options(no_data_loss=<non-literal>)")
         rec.fields["vacuum"] = VBool(not kwargs)
         return rec
     om.construct = construct
@@ -208,6 +217,7 @@ def _union_ret(stage, guard):
 
 @contract(R, "LogicalType.logical_parse", props=["C09", "C10", "C04", "C03", "C01"])
 class LOGICAL_PARSE:
+    replay = "logical_parse"
     self_model = "LogicalClass"
     cases = _lp_cases()
     calls = "leaf"
